@@ -317,11 +317,21 @@ mod groups {
             group_id: u16,
             group_name: &str,
         ) -> Result<bool, Error> {
+            // Refuse before changing anything: on an error the caller reports the failure
+            // to the peer and does not persist the fabric, so nothing must have changed
+            if group_name.len() > MAX_GROUP_NAME_LEN {
+                return Err(ErrorCode::ConstraintError.into());
+            }
+
             let entry = if let Some(entry) = self
                 .endpoint_mapping
                 .iter_mut()
                 .find(|e| e.group_id == group_id)
             {
+                if !entry.endpoints.contains(&endpoint_id) && entry.endpoints.is_full() {
+                    return Err(ErrorCode::ResourceExhausted.into());
+                }
+
                 entry
             } else {
                 self.endpoint_mapping
